@@ -379,7 +379,7 @@ class SOPClassExtendedNegotiationSubItem(object):
         """
         _, reserved, item_length, uid_length = cls.header.unpack(stream.read(6))
         sop_class_uid = uid.UID(stream.read(uid_length).decode())
-        app_info_length = item_length - uid_length
+        app_info_length = item_length - uid_length - 2
         app_info = stream.read(app_info_length)
         return cls(reserved=reserved, sop_class_uid=sop_class_uid, app_info=app_info)
 
